@@ -83,12 +83,38 @@ def check(ctx):
         ctx.check(bool(lasts) and V.always_then([b for b, lab in cfg.succ[g[0].id] if lab == "F"], stores), "T9-bounded", f,
                   "every evaluation past the lapse guard writes %s" % attr, "a path that skips the clamped write leaves a stale or unclamped value")
     es = [n for n in cfg.nodes if isinstance(n.ast, ast.Assign) and dotted(n.ast.targets[0]) == "e"]
-    ok = bool(es) and src(es[0].ast.value).replace(" ", "") in ("navigating.wrap2(angle=input-rsp,wrap=self.parm.data.wrap)", "navigating.wrap2(input-rsp,self.parm.data.wrap)")
+    ok = bool(es) and src(V.sym(es[0].ast.value, es[0])).replace(" ", "").replace("angle=", "").replace("wrap=", "").replace("self.rsp.value", "rsp") \
+        == "navigating.wrap2(self.input.value-rsp,self.parm.data.wrap)"
     ctx.check(ok, "T9-error", es[0].ast if es else f, "e = navigating.wrap2(input - rsp, parm.wrap)", "the error uses the shortest wrapped difference when wrapping is configured")
-    t = V.tests(lambda t: src(t).replace(" ", "") == "abs(rsp-prsp)>self.parm.data.drsp")
+    t = [x for x in V.cfg.nodes if x.kind == "test" and src(V.sym(x.ast.test, x)).replace(" ", "") in
+         ("abs(self.rsp.value-self.prsp.value)>self.parm.data.drsp", "abs(rsp-prsp)>self.parm.data.drsp")]
     resets = [n for n in V.stores("self.es.value") if isinstance(n.ast.value, ast.Constant) and n.ast.value.value == 0.0]
     pr = [n for n in V.stores("self.prsp.value")]
     ok = bool(t) and bool(resets) and all(V.dominated_by_edge([r], t[0], "T") for r in resets) and bool(pr) and all(V.dominated_by_edge([r], t[0], "T") for r in pr)
     ok = ok and V.cfg.always_reaches([t[0].id], [r.id for r in resets] + [b for b, lab in cfg.succ[t[0].id] if lab == "F"])
     ctx.check(ok, "T1-reset", f, "abs(rsp - prsp) > drsp => es = 0.0 and prsp = rsp", "a set point change larger than the threshold resets the integrator")
+    # the reset is seen by the accumulation: no local copy of the error sum taken *before* the reset is used after it
+    ctx.rule("T1-stale", "a local copy of self.es.value / self.prsp.value read before the reset store is not used after it")
+    for attr in ("self.es.value", "self.prsp.value"):
+        writes = [n for n in V.stores(attr) if isinstance(n.ast, ast.Assign)]
+        reads = [n for n in cfg.nodes if isinstance(n.ast, ast.Assign) and len(n.ast.targets) == 1 and isinstance(n.ast.targets[0], ast.Name)
+                 and src(V.sym(n.ast.value, n)) == attr]
+        bad = None
+        for r in reads:
+            x = r.ast.targets[0].id
+            reads_x = lambda u: any(isinstance(z, ast.Name) and z.id == x and isinstance(z.ctx, ast.Load) for z in cfg.walk_node(u)) or \
+                (isinstance(u.ast, ast.AugAssign) and isinstance(u.ast.target, ast.Name) and u.ast.target.id == x)
+            redefs = [d for d in V._def_nodes(x) if d != r.id and not reads_x(cfg.nodes[d])]
+            for w in writes:
+                if w.id not in cfg.reachable(r.id, removed_nodes=redefs):
+                    continue
+                if src(V.sym(w.ast.value, w)) == attr or dotted(w.ast.value) == x:
+                    continue            # writes the copy itself back
+                after = cfg.reachable(w.id, removed_nodes=redefs)
+                uses = [u for u in cfg.nodes if u.id in after and u.id != w.id and reads_x(u)]
+                if uses:
+                    bad = (r, w, uses[0])
+        ctx.check(bad is None, "T1-stale", bad[2].ast if bad else f, "no stale local copy of %s is used after it was overwritten" % attr,
+                  "the store `%s` is followed by a use of the copy read before it: the reset of the integrator (or of the previous set "
+                  "point) has no effect on this evaluation" % (src(bad[1].ast) if bad else ""))
     defect_scope(ctx, "D-scope", [f], max_depth=1, floor=1, label="scope: ControllerPid.action")
